@@ -151,7 +151,7 @@ def run(ctx):
                         else:
                             o.violated(gv, c, f"recursive call with ({tm.show(a0)}, {tm.show(a1)}), expected ({rem} - {i}*{top}, {top} - 1)")
                         row = txt(inner[0].target)
-                        y = ys[0].value
+                        y = gsc.resolve(ys[0].value, keep=(row, i))
                         if txt(y) == f"{row} + [{i}]":
                             o.holds(gv, ys[0], f"the count for topology t lands at index t-1: {txt(y)}")
                         elif txt(y) == f"[{i}] + {row}":
